@@ -885,6 +885,9 @@ func Vacuum(ctx context.Context, tableName string, beforeTime time.Time) error {
 		return fmt.Errorf("table not found: %s", tableName)
 	}
 
+	if table.Tree.Root.IsDirty() {
+		return fmt.Errorf("table has uncommitted changes: %s", tableName)
+	}
 	db, err := table.Tree.Root.Clone(ctx)
 	if err != nil {
 		return fmt.Errorf("clone: %w", err)
@@ -930,6 +933,7 @@ func Vacuum(ctx context.Context, tableName string, beforeTime time.Time) error {
 	if err != nil {
 		return fmt.Errorf("s3db commit tombstones: %w", err)
 	}
+	table.Tree.Root.Cancel()
 	table.Tree.Root = db
 	db = nil
 
